@@ -616,3 +616,71 @@ def hist_equal(a: dict, b: dict):
         if a[k] != b[k]:
             diffs.append(k)
     return diffs
+
+
+def shrink_scn(scn: dict):
+    """Generic shrinking lattice for calsim scenarios (DESIGN 3.7): fewer ops/batches, fewer samplers,
+    simpler loss/model/environment, fewer dimensions."""
+    import copy
+    ops = scn.get("ops", [])
+    for i in range(len(ops) - 1, -1, -1):
+        if len(ops) > 1:
+            c = copy.deepcopy(scn)
+            del c["ops"][i]
+            yield c
+    for i, op in enumerate(ops):
+        if op[0] in ("calibrate",) and op[1] > 1:
+            for n in sorted({1, op[1] // 2, op[1] - 1}):
+                if 1 <= n < op[1]:
+                    c = copy.deepcopy(scn)
+                    c["ops"][i][1] = n
+                    yield c
+    cfg = scn["config"]
+    if len(cfg["lineup"]) > 1:
+        for i in range(len(cfg["lineup"]) - 1, -1, -1):
+            c = copy.deepcopy(scn)
+            del c["config"]["lineup"][i]
+            yield c
+    for i, s in enumerate(cfg["lineup"]):
+        if s["batch_size"] > 1:
+            c = copy.deepcopy(scn)
+            c["config"]["lineup"][i]["batch_size"] -= 1
+            yield c
+    env = scn.get("env", {})
+    for k, v in BASE_ENV.items():
+        if k in env and env[k] != v and k not in ("sched",):
+            c = copy.deepcopy(scn)
+            c["env"][k] = v
+            yield c
+    if cfg["ensemble"] > 1:
+        c = copy.deepcopy(scn)
+        c["config"]["ensemble"] = 1
+        yield c
+    if cfg["loss"]["cls"] != "minkowski" or cfg["loss"]["opts"]:
+        c = copy.deepcopy(scn)
+        c["config"]["loss"] = {"cls": "minkowski", "opts": {}}
+        yield c
+    if cfg["model"]["kind"] not in ("gauss", "scripted") or cfg["model"].get("extreme"):
+        c = copy.deepcopy(scn)
+        c["config"]["model"] = {"kind": "gauss", "D": cfg["model"]["D"], "extreme": 0.0}
+        yield c
+    if cfg["model"]["D"] > 1 and not cfg["loss"]["opts"].get("weights"):
+        c = copy.deepcopy(scn)
+        c["config"]["model"]["D"] = 1
+        yield c
+    dims = len(cfg["space"]["precision"])
+    if dims > 1:
+        for j in range(dims - 1, -1, -1):
+            c = copy.deepcopy(scn)
+            for k in (0, 1):
+                del c["config"]["space"]["bounds"][k][j]
+            del c["config"]["space"]["precision"][j]
+            yield c
+    if cfg.get("sim_length") is not None:
+        c = copy.deepcopy(scn)
+        c["config"]["sim_length"] = None
+        yield c
+    if cfg["scheduler"]["kind"] == "rl" and cfg["scheduler"]["agent"].get("kind") == "eps":
+        c = copy.deepcopy(scn)
+        c["config"]["scheduler"]["agent"] = {"kind": "scripted", "script": [0, 1, 2]}
+        yield c
